@@ -78,7 +78,23 @@ fn cbor_seeds() -> Vec<Vec<u8>> {
     v
 }
 
-const FORMATS: &[&str] = &["json", "json", "yaml", "yaml", "cbor", "cbor", "toml", "xml", "xml", "csv", "tsv", "raw", "raw0"];
+/// Stored program text (filter files, module files) - the other kind of byte stream jaq reads.
+const JQ_SEEDS: &[&str] = &[
+    "def f($x; g): [$x, g] | map(. + 1); . as [$a, {b: $c}] | f($a; $c) | \"s\\(. | tojson)\\t\\u00e9\\ud83d\\ude00\\n\" # comment\n",
+    "reduce .[] as $x (0; . + $x) | foreach range(3) as $i (null; $i; [$i, .]) | label $out | (., break $out)",
+    "{a: 1, \"b c\": [1, 2.5e3, -0.1], (\"k\" + \"y\"): .x?, $__loc__, @base64 \"x\\(.y)z\": @json} | .[\"b c\"][1:] |= map(. * 2) | del(.a) | to_entries",
+    "import \"m\" as m {search: \"./lib\"}; include \"i\"; import \"d\" as $d; m::f($d) | if . == null then empty elif . > 0 then \"\\u0041\\uD83D\\uDE00\" else error(\"\\ud800\") end",
+    ".a.b[0]?.c // \"d\" | (.e, .f) = 1 | .g += 2 | .h //= 3 | try error catch . | .. | select(type == \"number\" and . >= 1e1000 or not) | -(. % 7)",
+    ". as {a: [$x, $y], $b} ?// [$x, $y, $b] | [limit(3; repeat($x))] | first(.[]), last, nth(1; .[]) | @sh \"echo \\(.)\", @uri, @csv, @tsv, @html, @text",
+    "def fac: if . <= 1 then 1 else . * (. - 1 | fac) end; def g(f; $n): f | f; [range(0; 10; 3)] | map(fac) | g(.[1:]; 2) | input_line_number? // $ENV.HOME | ltrimstr(\"/\") | test(\"a+\"; \"gx\")",
+    "\"\\(1 + 2) and \\(\"nested \\(\"deep \\(3)\")\") \\\\ \\\" \\/ \\b\\f\\r\" | [.[]?] | {(.[0]?): 1}? | $__prog_name?",
+    // boundary cases of the escape syntax (most of them rejected): surrogate halves in every
+    // combination, short and non-hex escapes, unknown escapes
+    "\"\\ud83d\\ude00 \\ud83d\\ud83d \\ude00\\ud83d \\ud800 \\udfff \\udbff\\u0041\", \"\\u00\", \"\\u12G4\", \"\\q\", \"\\uFFFF\\u0000\"",
+    "1e999999, -0, 0x10, 1.e5, .5, 1__2, 99999999999999999999999999999999, 1e-99999, [.[1e1000:]], .[\"a\"]?[-1:][::], ..a, .. a, .a.[0], $__loc__.x, @nofmt \"x\"",
+];
+
+const FORMATS: &[&str] = &["json", "json", "yaml", "yaml", "cbor", "cbor", "toml", "xml", "xml", "csv", "tsv", "raw", "raw0", "jq", "jq"];
 
 fn seed_doc(rng: &mut Rng, fmt: &str) -> Vec<u8> {
     let pick = |rng: &mut Rng, xs: &[&str]| rng.pick(xs).as_bytes().to_vec();
@@ -92,6 +108,7 @@ fn seed_doc(rng: &mut Rng, fmt: &str) -> Vec<u8> {
         "raw" => pick(rng, RAW_SEEDS),
         "raw0" => pick(rng, RAW_SEEDS).iter().map(|b| if *b == b'\n' { 0 } else { *b }).collect(),
         "cbor" => rng.pick(&cbor_seeds()).clone(),
+        "jq" => pick(rng, JQ_SEEDS),
         _ => unreachable!(),
     }
 }
@@ -279,7 +296,42 @@ fn fmt_of(s: &str) -> Format {
     Format::parse(s).expect("format")
 }
 
+/// A stored program (filter file / module file) met after storage damage: it compiles or is
+/// rejected with diagnostics that render - it is never *run* (a damaged program may
+/// legitimately loop for ever).
+fn run_program(c: &Case, st: &mut Stats) -> Option<(String, String)> {
+    let text = String::from_utf8_lossy(&c.doc.0).into_owned();
+    let r = guarded("the lexer / parser / compiler on a stored program", || match jaq_all::data::compile(&text) {
+        Ok(_) => (true, 0usize),
+        Err(reports) => {
+            let mut n = 0;
+            for fr in &reports {
+                let shown = jaq_all::load::FileReportsDisp::new(fr).to_string();
+                n += shown.len();
+            }
+            (false, n)
+        }
+    });
+    match r {
+        Err(v) => Some(v),
+        Ok((ok, rendered)) => {
+            if ok {
+                st.values += 1;
+            } else {
+                st.errors += 1;
+                if rendered == 0 {
+                    return Some(("X8".into(), "a rejected program produced no diagnostic text".into()));
+                }
+            }
+            None
+        }
+    }
+}
+
 pub fn run_case(c: &Case, st: &mut Stats) -> Option<(String, String)> {
+    if c.fmt == "jq" {
+        return run_program(c, st);
+    }
     let fmt = fmt_of(&c.fmt);
     let doc = &c.doc.0;
     let bound = doc.len() + 16;
@@ -650,7 +702,7 @@ pub fn check(cfg: &Cfg) -> Result<i32, Harness> {
         coverage: json!({
             "evaluations": evaluations,
             "distinct_nontrivial": keys.len(),
-            "rule": "RESTRICTED SCOPE: the stream-facing surface only. Each library case takes a seed document of one format (JSON/XJON, YAML, CBOR, TOML, XML, CSV, TSV, raw, raw0; hand-written to cover the syntax, plus CBOR written by the tree), applies 0-3 storage/transport faults (truncation at a byte, bit flip, zeroed block, duplicated block, swapped blocks, inserted/deleted/overwritten byte, repeated opening token) and a delivery plan (chunk sizes 1..64, Interrupted, hard read error at a step or at the end), and runs (a) the streaming reader read::read over a fault-injecting BufRead, (b) the slice parser read::parse, (c) the from* filter, (d) every value writer on the values obtained, against a sink with short writes, Interrupted, write and flush failures. Oracle: no panic (catch_unwind; debug assertions and overflow checks on), no crash or hang of the worker process (1 GiB stack, 6 GiB address space), at most len+16 pulls up to the end or first error, polling twice after the end is harmless, a writer on a benign sink produces the plain bytes and on a failing sink returns the error. CLI pass: worlds of the C16/C17/C18 generators with an injected errno on a random read/write/open/stat/map/rename/chmod call; oracle: exit is not 101 / a signal / a hang. distinct = distinct (format, fault kinds, min(values,3)) plus distinct (world kind, fired fault, exit); trivial = undamaged document with the default plan.",
+            "rule": "RESTRICTED SCOPE: the stream-facing surface only. Each library case takes a seed document of one format (JSON/XJON, YAML, CBOR, TOML, XML, CSV, TSV, raw, raw0; hand-written to cover the syntax, plus CBOR written by the tree) or a stored program text (`jq`: what a filter file or module file holds; it is only compiled and its diagnostics rendered, never run), applies 0-3 storage/transport faults (truncation at a byte, bit flip, zeroed block, duplicated block, swapped blocks, inserted/deleted/overwritten byte, repeated opening token) and a delivery plan (chunk sizes 1..64, Interrupted, hard read error at a step or at the end), and runs (a) the streaming reader read::read over a fault-injecting BufRead, (b) the slice parser read::parse, (c) the from* filter, (d) every value writer on the values obtained, against a sink with short writes, Interrupted, write and flush failures. Oracle: no panic (catch_unwind; debug assertions and overflow checks on), no crash or hang of the worker process (1 GiB stack, 6 GiB address space), at most len+16 pulls up to the end or first error, polling twice after the end is harmless, a writer on a benign sink produces the plain bytes and on a failing sink returns the error. CLI pass: worlds of the C16/C17/C18 generators with an injected errno on a random read/write/open/stat/map/rename/chmod call; oracle: exit is not 101 / a signal / a hang. distinct = distinct (format, fault kinds, min(values,3)) plus distinct (world kind, fired fault, exit); trivial = undamaged document with the default plan.",
             "by_format": pick("fmt:"),
             "faults_injected": pick("fault:"),
             "reach_probes": pick("reach:"),
